@@ -46,6 +46,59 @@ def run_e2(res, tier):
                             cases.append({"prog": pid, "op": "remote_exec" if kind == "exec" else "remote_query", "part": label, "input": json.dumps(list(tup)),
                                           "ctx": ctx, "extra": {"fn": fn, "via": via, "borrowed": borrowed}})
                             exp.append((pid, label, disp, m, tup, addr, fs, via, borrowed))
+    # instantiate builders of the corpus contracts: argument tuples x setter sequences x salted / unsalted
+    SETTERS = [[], ["label:L"], ["admin:adm"], ["funds:2"], ["label:L", "admin:adm", "funds:2"], ["funds:2", "admin:adm"], ["label:A", "label:B"], ["admin:x", "funds:1", "funds:3"]]
+    icases, iexp = [], []
+    for pid, (c, tags, names) in sorted(info.items()):
+        if pid in cp.failed or c.generics or ("contract", "inst_builder") not in names:
+            continue
+        m = next(x for x in c.methods if x.kind == "instantiate")
+        tups = fam_basic.value_tuples(m)
+        for ti, tup in enumerate(tups[:4] if tier == "quick" else tups):
+            for st in (SETTERS if ti == 0 else SETTERS[:1]):
+                for salt in (None, "s1"):
+                    for code_id in ((1, 18446744073709551615) if ti == 0 and not st else (7,)):
+                        icases.append({"prog": pid, "op": "inst_builder", "input": json.dumps(list(tup)), "extra": {"code_id": code_id, "setters": st, "salt": salt}})
+                        iexp.append((pid, m, tup, st, salt, code_id))
+    iobs = cp.run_cases(icases)
+    i2, iback = [], []
+    for n, (case, e, o) in enumerate(zip(icases, iexp, iobs)):
+        pid, m, tup, st, salt, code_id = e
+        res.add(states=1, transitions=1, traces=1, evaluations=1)
+        res.mark_nontrivial("ib|%s|%s|%s|%s|%s" % (pid, tup, st, salt, code_id))
+
+        def ibad(what, cls):
+            res.violation({"kind": "inst_builder", "cls": cls, "pid": pid, "args": list(tup), "setters": st, "salt": salt, "code_id": code_id, "obs": o,
+                           "what": "%s instantiate builder (args %s, setters %s, salt %s): %s" % (pid, list(tup), st, salt, what)})
+        if o is None or o.get("res") != "ok" or "panic" in o:
+            ibad("builder failed: %s" % o, "failed")
+            continue
+        want = {"label": "", "admin": None, "funds": []}
+        for x in st:
+            k, v = x.split(":")
+            want[k] = v if k != "funds" else [["atom", v]]
+        if o["variant"] != ("instantiate2" if salt else "instantiate") or o.get("salt") != salt:
+            ibad("built %s with salt %s" % (o["variant"], o.get("salt")), "salted_form")
+        if o["code_id"] != code_id:
+            ibad("code id %s, expected %s" % (o["code_id"], code_id), "code_id")
+        for k in ("label", "admin", "funds"):
+            if o[k] != want[k]:
+                ibad("%s is %s, builder was given %s" % (k, o[k], want[k]), k)
+        if o["msg"] != model.canon_json(fam_basic.doc(m, tup)):
+            ibad("arguments encoded as %s, the instantiate message is %s" % (o["msg"], model.canon_json(fam_basic.doc(m, tup))), "arguments")
+        i2.append({"prog": pid, "op": "ep", "kind": "instantiate", "input": o["msg"], "ctx": fam_basic.CONTEXTS[1]})
+        iback.append(n)
+    for n, o2 in zip(iback, cp.run_cases(i2)):
+        pid, m, tup, st, salt, code_id = iexp[n]
+        res.add(transitions=1, traces=1)
+        ok = o2 is not None and o2.get("res") == "ok"
+        if ok:
+            got = json.loads(o2["resp"]["attributes"][0]["value"])
+            ok = got["args"] == fam_basic.expected_echo(c.name, m, tup, fam_basic.CONTEXTS[1])["args"]
+        if not ok:
+            res.violation({"kind": "inst_builder", "cls": "target_rejects", "pid": pid, "args": list(tup),
+                           "what": "%s: the target's instantiate entry point does not accept the builder's body with equal arguments: %s" % (pid, o2)})
+    res.parts["instantiate_builder_cases"] = len(icases)
     obs = cp.run_cases(cases)
     # phase 2: feed every built execute body to the target's execute entry point
     cases2, back = [], []
